@@ -1617,6 +1617,7 @@ protocol::Manifest Node::store_chunk(const ChunkId& chunk_id,
     broadcast_manifest(manifest);
     note_local_seed(chunk_id);
 
+    EPH_VERIF_EVENT("store", chunk_id.data(), std::chrono::duration_cast<std::chrono::milliseconds>(manifest.expires_at.time_since_epoch()).count(), true);
     return manifest;
 }
 
@@ -1634,6 +1635,7 @@ bool Node::ingest_manifest(const std::string& manifest_uri) {
 
     const auto ttl = manifest_ttl(manifest, config_);
     if (!ttl.has_value()) {
+        EPH_VERIF_EVENT("ingest", manifest.chunk_id.data(), std::chrono::duration_cast<std::chrono::milliseconds>(manifest.expires_at.time_since_epoch()).count(), false);
         return false;
     }
 
@@ -1644,6 +1646,7 @@ bool Node::ingest_manifest(const std::string& manifest_uri) {
         dht_.publish_shards(manifest.chunk_id, manifest.shards, manifest.threshold, manifest.total_shares, *ttl);
     }
     update_swarm_plan(manifest);
+    EPH_VERIF_EVENT("ingest", manifest.chunk_id.data(), std::chrono::duration_cast<std::chrono::milliseconds>(manifest.expires_at.time_since_epoch()).count(), true);
     return true;
 }
 
@@ -1661,6 +1664,7 @@ std::optional<ChunkData> Node::receive_chunk(const std::string& manifest_uri, Ch
 
     const auto ttl = manifest_ttl(manifest, config_);
     if (!ttl.has_value()) {
+        EPH_VERIF_EVENT("replica", manifest.chunk_id.data(), std::chrono::duration_cast<std::chrono::milliseconds>(manifest.expires_at.time_since_epoch()).count(), false);
         return std::nullopt;
     }
 
@@ -1713,6 +1717,7 @@ std::optional<ChunkData> Node::receive_chunk(const std::string& manifest_uri, Ch
 
     broadcast_manifest(manifest);
 
+    EPH_VERIF_EVENT("replica", manifest.chunk_id.data(), std::chrono::duration_cast<std::chrono::milliseconds>(manifest.expires_at.time_since_epoch()).count(), true);
     return plaintext;
 }
 
@@ -2161,6 +2166,7 @@ void Node::tick() {
             }
         }
         last_cleanup_ = now;
+        EPH_VERIF_EVENT("cleanup", nullptr, 0, true);
     }
     rebalance_swarm_plans();
     process_pending_uploads();
@@ -2497,6 +2503,7 @@ void Node::handle_announce(const protocol::AnnouncePayload& payload,
     if (!ttl_opt.has_value()) {
         record_announce_failure(sender, now);
         reputation_.record_failure(sender);
+        EPH_VERIF_EVENT("announce", manifest.chunk_id.data(), std::chrono::duration_cast<std::chrono::milliseconds>(manifest.expires_at.time_since_epoch()).count(), false);
         return;
     }
 
@@ -2543,6 +2550,7 @@ void Node::handle_announce(const protocol::AnnouncePayload& payload,
     broadcast_manifest(manifest);
 
     reputation_.record_success(sender);
+    EPH_VERIF_EVENT("announce", manifest.chunk_id.data(), std::chrono::duration_cast<std::chrono::milliseconds>(manifest.expires_at.time_since_epoch()).count(), true);
 }
 
 std::optional<std::array<std::uint8_t, 32>> Node::session_shared_key(const PeerId& peer_id) const {
